@@ -26,6 +26,17 @@ fn item_ids(d: &Map<String, Value>) -> Vec<String> {
 
 /// one concurrent edit of object `a` per replica: update to a symbolic value or deletion
 fn edit(r: &Rep) {
+    if sym::param(0) == 2 && sym::any_bool() {
+        // an ordinary object that happens to carry a user field named like the deletion marker
+        let mut d = doc(true, "x", "y");
+        if let Some(serde_json::Value::Array(items)) = d.get_mut("items♭") {
+            items[0].as_object_mut().unwrap().insert("_deleted".to_string(), serde_json::Value::from(false));
+            items[0].as_object_mut().unwrap().insert("v".to_string(), serde_json::Value::from(val()));
+        }
+        r.m.update(d).expect("update");
+        r.m.commit(None).expect("commit").expect("edit produced no block");
+        return;
+    }
     if sym::any_bool() {
         let v = val();
         sym::assume(v != "x");
